@@ -111,24 +111,38 @@ Theorem C08_inputs_untouched_result_never_read :
 Proof. exact (@kernel_frame). Qed.
 
 (* NO POISON.  `_mm_undefined_ps` has exactly one user in the source: <Avx2 as SimdRegister<f64>>::sum_to_value.
-   With undefined lanes modelled explicitly (Model/Poison.v, the function's instruction sequence line by line),
-   for every fully defined register and EVERY content of the undefined register (poison or garbage), under any
-   word-level representation of a 64-bit lane, the value extracted is defined and is the fold the register
-   model uses. *)
+   With undefined lanes modelled explicitly (Model/Poison.v, the function's instruction sequence line by line):
+   for every lane type V with any addition, any word-level representation of a lane (lo/hi/join with
+   join (lo v) (hi v) = v), every fully defined register and EVERY content of the undefined register (poison,
+   or any garbage of any length), the value extracted is defined and is (r2 + r0) + (r3 + r1). *)
 Theorem C08_no_poison :
+  forall (V W : Type) (lo hi : V -> W) (join : W -> W -> V) (add : V -> V -> V),
+    (forall v, join (lo v) (hi v) = v) ->
+    forall (undef : list (option W)) (r0 r1 r2 r3 : V),
+      avx2_f64_sum_to_value_with V W lo hi join add undef [Some r0; Some r1; Some r2; Some r3]
+      = Some (add (add r2 r0) (add r3 r1)).
+Proof. exact sum_to_value_defined. Qed.
+
+(* ... which, on binary64 with IEEE addition, is the fold the register model of the AVX2 f64 back end uses
+   (Model/Regs.v [avx2_fsum]; that model is compared with the real method by correspondence B and by the paired
+   runs). *)
+Theorem C08_no_poison_f64 :
   forall (W : Type) (lo hi : f64 -> W) (join : W -> W -> f64),
     (forall v, join (lo v) (hi v) = v) ->
-    forall (undef : list (option W)) (r0 r1 r2 r3 : f64),
-      avx2_f64_sum_to_value_with f64 W lo hi join f_add undef [Some r0; Some r1; Some r2; Some r3]
+    forall (r0 r1 r2 r3 : f64),
+      avx2_f64_sum_to_value f64 W lo hi join f_add [Some r0; Some r1; Some r2; Some r3]
       = Some (avx2_fsum [r0; r1; r2; r3]).
 Proof.
-  exact (fun W lo hi join J undef r0 r1 r2 r3 => sum_to_value_defined f64 W lo hi join f_add J undef r0 r1 r2 r3).
+  exact (fun W lo hi join J r0 r1 r2 r3 => sum_to_value_is_avx2_fsum W lo hi join r0 r1 r2 r3 J).
 Qed.
 
-Check kernel_oblivious :
-  forall (R : SimdOps ?[T]) (Mth : MathOps ?T) k dims v, obl (run_kernel R Mth k dims v).
-Check obl_monadic : monadic (fun A c => @obl ?[T] A c).
-Check frames_monadic : monadic (fun A c => @frames ?[T] A c).
+Check @kernel_oblivious :
+  forall (T : Type) (R : SimdOps T) (Mth : MathOps T) k dims v, obl (run_kernel R Mth k dims v).
+Check @obl_monadic : forall T : Type, monadic (fun A (c : M T A) => obl c).
+Check @frames_monadic : forall T : Type, monadic (fun A (c : M T A) => frames c).
+Check @sum_to_value_strict :
+  forall V W lo hi join add r0 r1 r3,
+    avx2_f64_sum_to_value V W lo hi join add [Some r0; Some r1; None; Some r3] = None.
 
 (* Non-vacuity: the symbolic back end with 3 lanes (the instance compared with the real code), dims = 53 = two
    dense blocks + one register + two scalars, two different prefills: both runs return, the result slices are
